@@ -260,12 +260,37 @@ def p10(ctx, rid):
     cap_f = [f for f in prog.fns.values() if f.id == prog.fns[f.id].root and f.id.endswith('::max_nonleaf_node_capacity')]
     size_f = [f for f in prog.fns.values() if f.id == prog.fns[f.id].root and f.id.endswith('Node::serialized_size_with_keys')]
     blk = prog.consts.get('blob::index::bptree::core::BLOCK_SIZE', {}).get('int')
-    if not cap_f or not size_f or blk is None:
-        raise core.AnchorLost('max_nonleaf_node_capacity / Node::serialized_size_with_keys / BLOCK_SIZE')
+    if not size_f or blk is None:
+        raise core.AnchorLost('Node::serialized_size_with_keys / BLOCK_SIZE')
     key = 'full-inner-node-fits-a-block'
-    ce = poly.Eval(prog, cap_f[0], {1: 'key'}).run()
     se = poly.Eval(prog, size_f[0], {1: 'key', 2: 'keys'}).run()
-    cap, size = ce.result(), se.result()
+    size = se.result()
+    cap = None
+    if cap_f:
+        ce = poly.Eval(prog, cap_f[0], {1: 'key'}).run()
+        cap = ce.result()
+    else:
+        # the formula was inlined into the tree builder: the capacity is the `max` element of the (min, max) amounts handed to the
+        # layer passes; the key length is the one `len(..)` symbol of that expression
+        for g in prog.fns.values():
+            if g.file != 'src/blob/index/bptree/serializer.rs' or g.id != prog.fns[g.id].root:
+                continue
+            for c in g.calls:
+                if c.bb not in g.reachable() or c.name not in ('collect_next_layer_nodes', 'shift_all_and_write'):
+                    continue
+                for a in c.args:
+                    l = op_local(a)
+                    ds = [x for x in g.defs().get(l, []) if x[2] == 'assign' and x[3]['k'] == 'agg' and x[3].get('ak') == 'tuple' and len(x[3]['ops']) == 2] if l is not None else []
+                    if len(ds) == 1 and cap is None:
+                        ce = poly.Eval(prog, g, {}).run()
+                        v = ce.scalar(ds[0][3]['ops'][1])
+                        lens = sorted({s_ for m in (v or {}) for s_ in m if s_.startswith('len(')} | {s_ for (X, D) in ce.facts.values() for pp in (X, D) for m in pp for s_ in m if s_.startswith('len(')})
+                        if v is not None and len(lens) == 1:
+                            cap = poly.subst(v, lens[0], poly.sym('key'))
+                            ce.facts = {q: (poly.subst(X, lens[0], poly.sym('key')), poly.subst(D, lens[0], poly.sym('key'))) for q, (X, D) in ce.facts.items()}
+                            cap_f = [g]
+        if cap is None:
+            raise core.AnchorLost('max_nonleaf_node_capacity (or the inlined `max` amount of the tree builder)')
     if cap is None or size is None:
         ctx.bad(rid, key, cap_f[0].where(), 'the capacity / node size formula is no longer an arithmetic expression this rule can evaluate (capacity: %s, size: %s)' % (cap, size))
         return
